@@ -5,4 +5,7 @@ def classify(w):
     tail = w.get("what", "").split("] ", 1)[-1]
     if tail.startswith("after solve_ode_system: evaluate_") and "raises KeyError: 't'" in tail:
         return "evaluators_raise_keyerror_t_after_solve_ode_system"
+    labels = (w.get("history") or [None, []])[1]
+    if tail.startswith("after solve_ode_system: ") and "ComplexInfinity" in tail and "transits_3" in labels:
+        return "solve_ode_system_repeated_transit_rate_gives_complex_infinity"
     return None
